@@ -339,20 +339,42 @@ Definition nodes_covered (nodes down : list N) (frs : list frame) : bool :=
    cancelled where it stands, the caller gets RequestTimeout, nothing is retried.  On the wire: per
    fiber a run of the model, possibly cut short where the fiber was cancelled (gate closed: ONE fiber,
    and it had not run to its end; gate open: fibers that ended with an ignorable error may have been
-   waiting for the next timer tick), the call returned no earlier than [tmo] after it started, and no frame arrives more than
-   [margin] after it returned. *)
-(* the property on the frames of a request whose caller got RequestTimeout: after the call has given
-   up nothing is sent any more -- no frame arrives more than [margin] after the call returned *)
-Definition prop_timeout_frames (tret margin : N) (frs : list frame) : bool :=
+   waiting for the next timer tick), the call returned no earlier than [tmo] after it started, no frame
+   arrives more than [margin] after it returned, and a fiber counts as cancelled with its last frame in
+   flight only if that frame's answer -- when one was logged -- came no earlier than [smargin] before
+   the earliest instant the timeout can have fired (t0 + tmo). *)
+(* no frame arrives more than [margin] after the call returned (structure of an accepted timed-out
+   request; the first frame included) *)
+Definition late_frames_ok (tret margin : N) (frs : list frame) : bool :=
   forallb (fun f => f_arr f <=? tret + margin) frs.
+
+(* The PROPERTY on the frames of a request whose caller got RequestTimeout: after the call has given
+   up nothing is sent AGAIN -- no frame other than the first arrives more than [margin] after the call
+   returned.  (One late first frame is a timing observation, not a re-send.) *)
+Definition prop_timeout_frames (tret margin : N) (frs : list frame) : bool :=
+  match frs with
+  | [] => true
+  | _ :: rest => late_frames_ok tret margin rest
+  end.
+
+(* a fiber cancelled "while its last frame was in flight" although that frame's answer was logged:
+   the timeout (which fires no earlier than t0 + tmo) must have fired before the answer could be
+   processed -- the answer was logged no earlier than [smargin] before t0 + tmo *)
+Definition free_answer_ok (t0 tmo smargin : N) (c : cert) (frs : list frame) : bool :=
+  negb (c_free c)
+  || match rev frs with
+     | [] => true
+     | l :: _ => negb (answered l) || (t0 + tmo <=? f_done l + smargin)
+     end.
 
 Definition check_timeout (p : policy) (idem : bool) (spec : option nat) (cl0 : consistency)
            (nodes down : list N) (cs : list cert) (assign : list nat) (frs : list frame)
-           (t0 tmo tret margin : N) : bool :=
+           (t0 tmo tret margin smargin : N) : bool :=
   multi_ok p idem cl0 nodes down (match gate_open idem spec with Some m => m | None => 0%nat end)
            cs assign frs
   && (t0 + tmo <=? tret)
-  && prop_timeout_frames tret margin frs
+  && late_frames_ok tret margin frs
+  && forallb (fun ic => free_answer_ok t0 tmo smargin (snd ic) (sub_frames (fst ic) assign frs)) (indexed cs)
   && (* gate closed: the one fiber had not run to its end (it would have returned its result) *)
      match gate_open idem spec with
      | Some _ => true
